@@ -155,6 +155,10 @@ def main():
         return 200, reply_json(r, pl['numeric'], pl['enum']), {}
 
     srv = lh.Server(responder)
+    # one TCP segment per reply: with the default unbuffered wfile the status line/headers and the body go out in
+    # separate small writes and Nagle + delayed ACK cost ~40 ms per call on a keep-alive connection
+    srv.httpd.RequestHandlerClass.wbufsize = -1
+    srv.httpd.RequestHandlerClass.disable_nagle_algorithm = True
     out = []
     try:
         mod, client = rt.rest_client(pl['module'], pl['service_snake'], pl['service'], srv.hostport)
